@@ -420,7 +420,7 @@ def random_histories(rng, count, max_len, steps_n, max_vals=3):
                 nexth += 1
 
             if kind == "arr":
-                ops = ["into_iter", "box_new", "vec_from_arr", "bslice_from_arr", "map", "fold", "clone", "split"]
+                ops = ["into_iter", "into_iter", "into_iter", "box_new", "vec_from_arr", "bslice_from_arr", "map", "fold", "clone", "split"]
                 if n <= 16:
                     ops += ["into_array", "into_native"]
                 if 1 <= n <= 12:
@@ -496,14 +496,14 @@ def random_histories(rng, count, max_len, steps_n, max_vals=3):
                     del vals[h]
                     out1({"into_iter": "iter", "box_new": "box", "vec_from_arr": "vec", "bslice_from_arr": "bslice", "into_array": "native", "into_native": "native", "into_tuple": "tuple"}[o], n)
             elif kind == "iter":
-                o = rng.choice(["next", "next_back", "nth", "nth_back", "len", "iter_clone", "count", "last", "iter_fold", "iter_rfold", "release", "debug"])
+                o = rng.choice(["next", "next_back", "next", "next_back", "nth", "nth_back", "nth", "nth_back", "len", "iter_clone", "count", "last", "iter_fold", "iter_rfold", "release", "debug", "collect_iter"])
                 if o in ("next", "next_back"):
                     steps.append({"op": o, "recv": [h]})
                     if n:
                         vals[h] = ("iter", n - 1, 0)
                         loose += 1
                 elif o in ("nth", "nth_back"):
-                    a = rng.randint(0, n + 1)
+                    a = rng.choice([0, 1, n, n + 1, n + 2, rng.randint(0, n + 1)])
                     steps.append({"op": o, "recv": [h], "arg": a})
                     k = min(a, n)
                     if n - k > 0:
@@ -519,6 +519,14 @@ def random_histories(rng, count, max_len, steps_n, max_vals=3):
                 elif o == "release":
                     steps.append({"op": "release", "h": h})
                     del vals[h]
+                elif o == "collect_iter":
+                    tgt = rng.choice([n, n, n + 1, max(n - 1, 0)])
+                    if tgt > max_len:
+                        tgt = n
+                    steps.append({"op": o, "recv": [h], "arg": tgt})
+                    del vals[h]
+                    if tgt == n:
+                        out1("arr", n)
                 else:
                     steps.append({"op": o, "recv": [h]})
                     del vals[h]
@@ -567,10 +575,12 @@ def c03(tier, seed):
     r = c.mc("MC_Pool", "MC_Pool_q" if tier == "quick" else "MC_Pool_t", workers=8, timeout=1500)
     hists = [h for h in r["scenarios"] if any("recv" in st for st in h["steps"])]
     rng = random.Random(seed)
-    if tier == "quick" and len(hists) > 1500:
-        hists = rng.sample(hists, 1500)
+    if tier == "quick" and len(hists) > 2500:
+        # keep the histories with the most chained calls, sample the rest
+        hists.sort(key=lambda h: -sum(1 for st in h["steps"] if "recv" in st))
+        hists = hists[:1500] + rng.sample(hists[1500:], 1000)
     scns = [{"case": "hist", "steps": h["steps"], "d": {"kind": "tlc-history", "steps": h["steps"]}} for h in hists]
-    c.cov["bounds"] = {"exhaustive": "histories of <= %d operations over <= 2 values of length <= %d" % ((3, 2) if tier == "quick" else (4, 3))}
+    c.cov["bounds"] = {"exhaustive": "histories of <= %d operations over <= 2 values of length <= %d" % ((4, 2) if tier == "quick" else (5, 3))}
     c.conform(binary, with_etys(scns, ["tk"] if tier == "quick" else ["tk", "zst", "plain"]), "tlc-histories")
     # longer chained histories: TLC simulation of the same model, then the harness's own seeded driver
     sim = c.mc("MC_Pool", "MC_Pool_sim", workers=1, extra=["-simulate", "num=%d" % (60 if tier == "quick" else 600), "-depth", "200", "-seed", str(seed)])
@@ -578,4 +588,101 @@ def c03(tier, seed):
     c.conform(binary, with_etys(scns, ["tk", "zst", "plain"]), "tlc-simulation")
     rnd = random_histories(rng, 30 if tier == "quick" else 300, 12, 40 if tier == "quick" else 120)
     c.conform(binary, with_etys(rnd, ["tk", "zst", "plain"]), "random-histories")
+    return c.finish()
+
+
+# ---------------------------------------------------------------------------------------------
+# views: C02, C10, by-reference halves of C09 (split) and C11 (flatten/unflatten)
+# ---------------------------------------------------------------------------------------------
+VIEW_ETYS = ["unit", "u8", "u32", "u64", "u8u16", "b24", "owned"]
+SLICE_APIS = ["from_slice", "try_from_slice", "tryfrom_ref", "from_mut_slice", "try_from_mut_slice", "tryfrom_mut"]
+WHOLE_APIS = ["as_slice", "deref", "asref_slice", "borrow", "as_mut_slice", "deref_mut", "asmut_slice", "borrow_mut", "iter", "ref_into_iter", "iter_mut", "mut_into_iter",
+              "asref_array", "asmut_array", "from_array_ref", "from_array_mut"]
+CHUNK_APIS = ["chunks_from_slice", "chunks_from_slice_mut"]
+CAST_APIS = ["slice_from_chunks", "slice_from_chunks_mut", "from_chunks", "from_chunks_mut", "into_chunks", "into_chunks_mut"]
+HLENS = [0, 1, 2, 3, 4, 5, 6, 7, 8, 9, 10, 11, 12, 16, 33, 97, 1024]
+SPLIT_OK = None
+
+
+def split_pairs():
+    out = []
+    for n in list(range(0, 13)) + [16, 97]:
+        ks = sorted(set(list(range(0, min(n, 12) + 1)) + [n // 2, n - 1 if n else 0, n]))
+        for k in ks:
+            if k in HLENS and k <= n:
+                out.append((n, k))
+    return out
+
+
+def view_scn(prop, api, ety, n=0, l=0, k=0, m=0):
+    d = {"api": api, "ety": ety, "n": n, "l": l, "k": k, "m": m}
+    return {"case": api, "prop": prop, "d": d}
+
+
+def views_from_model(c, cfg, keep):
+    r = c.mc("MC_Views", cfg)
+    return dedupe([d for d in r["scenarios"] if keep(d)])
+
+
+@check("C02")
+def c02(tier, seed):
+    c = Check("C02", tier, seed)
+    binary = vlib.build_harness()
+    rows = views_from_model(c, "MC_Views", lambda d: d["api"] in WHOLE_APIS + SLICE_APIS)
+    etys = ["unit", "u8", "u64", "owned"] if tier == "quick" else VIEW_ETYS
+    big = [9, 10, 11, 12, 16, 97] if tier == "quick" else [5, 6, 9, 10, 11, 12, 16, 33, 97, 1024]
+    scns = []
+    for d in rows:
+        for e in etys:
+            scns.append(view_scn("C02", d["api"], e, d["n"], d["l"]))
+    for n in big:
+        for api in WHOLE_APIS:
+            for e in etys:
+                scns.append(view_scn("C02", api, e, n, n))
+        for api in SLICE_APIS:
+            for l in sorted(set([0, n - 1, n, n + 1, 2 * n, n + 7])):
+                for e in etys[:3]:
+                    scns.append(view_scn("C02", api, e, n, l))
+    c.cov["exhaustive"] = True
+    c.conform(binary, scns, "views", sub="views")
+    # by-value conversions to and from [T; N] and same-typed tuples keep every element at its position
+    conv = []
+    for n in range(0, 13):
+        steps = [[_mk("arr", n), {"op": "into_array", "recv": [1]}, {"op": "from_array", "recv": [2]}, {"op": "into_native", "recv": [3]}, {"op": "from_native", "recv": [4]}]]
+        if n >= 1:
+            steps.append([_mk("arr", n), {"op": "into_tuple", "recv": [1]}, {"op": "from_tuple", "recv": [2]}])
+            steps.append([_mk("tuple", n), {"op": "from_tuple", "recv": [1]}, {"op": "into_tuple", "recv": [2]}])
+        steps.append([_mk("native", n), {"op": "from_native", "recv": [1]}, {"op": "into_array", "recv": [2]}])
+        for st in steps:
+            conv.append({"case": "conv", "prop": "C02", "ety": "tk", "steps": st, "d": {"op": "byvalue-conversions", "n": n, "steps": [s["op"] for s in st]}})
+    conv.append({"case": "conv", "prop": "C02", "ety": "tk", "steps": [_mk("arr", 16), {"op": "into_array", "recv": [1]}, {"op": "from_native", "recv": [2]}], "d": {"op": "byvalue-conversions", "n": 16}})
+    c.conform(binary, with_etys(conv, ["tk", "zst", "plain"]), "conversions")
+    return c.finish()
+
+
+@check("C10")
+def c10(tier, seed):
+    c = Check("C10", tier, seed)
+    binary = vlib.build_harness()
+    rows = views_from_model(c, "MC_Views", lambda d: d["api"] in CHUNK_APIS + CAST_APIS)
+    etys = ["unit", "u8", "u32", "u8u16"] if tier == "quick" else ["unit", "u8", "u32", "u8u16", "b24", "u64", "owned"]
+    scns = []
+    for d in rows:
+        for e in etys:
+            scns.append(view_scn("C10", d["api"], e, d["n"], d["l"], 0, d["m"]))
+    rng = random.Random(seed)
+    for n in ([16, 97] if tier == "quick" else [5, 6, 9, 12, 16, 33, 97, 1024]):
+        ls = sorted(set([0, 1, n - 1, n, n + 1, 2 * n - 1, 2 * n, 3 * n + 2, 4 * n + 3] + [rng.randint(0, 4 * n + 3) for _ in range(4)]))
+        for api in CHUNK_APIS:
+            for l in ls:
+                for e in etys[:3]:
+                    scns.append(view_scn("C10", api, e, n, l))
+        for api in CAST_APIS:
+            for m in (0, 1, 3):
+                for e in etys[:3]:
+                    scns.append(view_scn("C10", api, e, n, 0, 0, m))
+    c.cov["exhaustive"] = True
+    c.cov["bounds"] = {"model": "N in {0,1,2,3,4,7,8}, L in 0..4N+3, chunk counts 0..3"}
+    c.conform(binary, scns, "chunks", sub="views")
+    c.assumptions.append("the const-evaluator half of the quantifier is covered by C18's generated const items")
     return c.finish()
